@@ -102,11 +102,31 @@ def gen_values(r: apigen.Rng, segs):
 
 
 def classify(segs, vals):
-    """signature key of an input w.r.t. the theorem's hypotheses (None = inside `Good`)"""
+    """TRIGGER of the two listed value findings (None = inside `Good`): a segment value that is empty / holds a newline"""
     if any(v == "" for v in vals):
         return "empty-segment-value"
     if any("\n" in v for v in vals):
         return "newline-in-segment-value"
+    return None
+
+
+def recorded_parse(segs, path):
+    """what the RECORDED defect returns for `path`: the parse regex is `^` + escaped literals with `(?P<v>.+?)` per variable + `$`,
+    no flags (`.` does not match a newline, `.+?` needs a character, `$` also matches before a final newline).  Built here
+    from the tokens, independently of /repo."""
+    rx = "^" + "".join(re.escape(x[1]) if x[0] == "lit" else f"(?P<{x[1]}>.+?)" for x in segs) + "$"
+    m = re.match(rx, path)
+    return m.groupdict() if m else {}
+
+
+def value_finding_key(segs, vals, built_ok, path, parsed, want):
+    """the known key of a value finding is assigned only to ITS failure: the input has the trigger (empty / newline value), the
+    helper built the right path, parsing did not raise, and the wrong result is exactly the one the recorded regex gives.
+    Anything else on such an input (an exception, a wrong built path, another wrong dict, a non-matching string that parses)
+    keeps its ordinary, unlisted key."""
+    key = classify(segs, vals)
+    if key and built_ok and isinstance(parsed, dict) and parsed != want and parsed == recorded_parse(segs, path):
+        return key
     return None
 
 
@@ -186,38 +206,40 @@ def judge_helpers(ctx, cases, obs, payload_of):
     for k, c in enumerate(cases):
         segs, vals = c["segs"], c["values"]
         args = [s[1] for s in segs if s[0] == "var"]
-        key = classify(segs, vals)
         expect_path = "".join(s[1] if s[0] == "lit" else vals[args.index(s[1])] for s in segs)
         want = dict(zip(args, vals)) if render(segs) != "*" else {}
-        nfail = len(ctx.failures)
+        ref = obs["sync-class"][k] if isinstance(obs.get("sync-class"), list) else None
         for rc in RECEIVERS:
             if not isinstance(obs.get(rc), list):
                 continue
-            if rc != "sync-class" and len(ctx.failures) > nfail:
-                break          # already exhibited for this input; a `:<receiver>` key means "only when reached that way"
             suffix = "" if rc == "sync-class" else ":" + rc
             for style in ("positional", "keyword"):
                 o = obs[rc][k][style]
+                if rc != "sync-class" and ref is not None and o == ref[style]:
+                    continue       # behaves exactly like the sync class with the same arguments: judged there
                 how = f"{rc}, {style} arguments: {c['helper']}_path"
                 pl = {**payload_of(c), "receiver": rc, "arguments": style}
                 b, pr = o["built"], o["parsed"]
                 if "raised" in b:
                     if b["raised"] != "AttributeError" or o["parsed"] is not None:     # a MISSING helper is reported once, from dir() of the class
-                        ctx.fail(key or "build-raised" + suffix, f"{how} raised {b['raised']}: {b.get('msg', '')[:120]}", pl)
+                        ctx.fail("build-raised" + suffix, f"{how} raised {b['raised']}: {b.get('msg', '')[:120]}", pl)
                     break
                 if b["value"] != expect_path:
-                    ctx.fail(key or "build-wrong" + suffix, f"{how} built {b['value']!r} != pattern instantiated {expect_path!r}", pl)
+                    ctx.fail("build-wrong" + suffix, f"{how} built {b['value']!r} != pattern instantiated {expect_path!r}", pl)
                     break
                 if pr is None or "raised" in pr:
-                    ctx.fail(key or "parse-raised" + suffix, f"{how}: parse_{c['helper']}_path({expect_path!r}) raised {pr}", {**pl, "path": expect_path})
+                    ctx.fail("parse-raised" + suffix, f"{how}: parse_{c['helper']}_path({expect_path!r}) raised {pr}", {**pl, "path": expect_path})
                     break
                 if pr["value"] != want:
-                    ctx.fail(key or "roundtrip" + suffix, f"{how}: parse(build({vals})) = {pr['value']} for pattern {render(segs)!r}",
+                    # a listed value finding only on the sync class (the other receivers are reported only where they DIFFER from it)
+                    known = value_finding_key(segs, vals, True, expect_path, pr["value"], want) if rc == "sync-class" else None
+                    ctx.fail(known or "roundtrip" + suffix, f"{how}: parse(build({vals})) = {pr['value']} for pattern {render(segs)!r}",
                              {**pl, "path": expect_path, "observed": pr["value"]})
-                    break
+                    if not known:
+                        break
                 bad = [(sx, q) for sx, q in zip(c.get("nonmatching", []), o["nonmatching"]) if q.get("value") != {}]
                 if bad:
-                    ctx.fail(key or "nonmatch-not-empty" + suffix, f"{how}: parse of non-matching {bad[0][0]!r} gave {bad[0][1]}", {**pl, "path": bad[0][0]})
+                    ctx.fail("nonmatch-not-empty" + suffix, f"{how}: parse of non-matching {bad[0][0]!r} gave {bad[0][1]}", {**pl, "path": bad[0][0]})
                     break
         sc = obs["sync-class"][k]["positional"] if isinstance(obs.get("sync-class"), list) else None
         base.append(sc)
@@ -270,6 +292,7 @@ def run_batch(ctx, batch, label):
             ctx.fail("helper-missing", f"resource {c['name']} not visible to the service", {"pattern": render(c["segs"])})
             continue
         if mo.get("regex") is None:
+            ctx.unsupported += 1            # never silent: counted in the evidence (0 on the clean tree)
             continue
         try:
             real = translate.regex_to_json(msg.path_regex_str)
@@ -365,17 +388,22 @@ def check_name_shapes(ctx, which=("same-short-name", "keyword-variable", "common
             compile(client.content, client.name, "exec")
         except SyntaxError as e:
             line = client.content.splitlines()[(e.lineno or 1) - 1].strip()
-            key = "helper-syntax-error:keyword-variable" if (shape == "keyword-variable" and re.match(r"def \w+_path\(", line)) else f"name-shape:{shape}:syntax-error"
+            # the recorded failure: the `def` of THIS resource's builder with the pattern's keyword-named variables as parameters
+            recorded = (shape == "keyword-variable" and client.name.endswith("services/library/client.py")
+                        and re.match(r"def klass_path\(class: str,\s*import: str,?\s*\) -> str:", line))
+            key = "helper-syntax-error:keyword-variable" if recorded else f"name-shape:{shape}:syntax-error"
             ctx.fail(key, f"pattern {specs[0][2]!r}: emitted client does not parse: {line[:100]}", payload)
             continue
         root = genrun.materialise(res)
         try:
             probe = ("import json\nfrom acme.lib_v1.services.library import LibraryClient as C\nout = {}\n"
+                     "def call(n, a):\n"
+                     "    try:\n        return {'value': getattr(C, n)(a)}\n    except BaseException as e:\n        return {'raised': type(e).__name__}\n"
                      "for pat, vals in %r:\n"
                      "    built = pat.format(**vals)\n"
-                     "    out[pat] = [sorted(n for n in dir(C) if n.endswith('_path') and (%r or 'common' not in n)), [getattr(C, n)(built) for n in dir(C) if n.startswith('parse_') and (%r or 'common' not in n)]]\n"
-                     "print(json.dumps(out))\n") % ([(pat, {v: "x" + v for v in re.findall(r"{(\w+)}", pat)}) for _, _, pat in specs],
-                                                       shape == "common-prefix", shape == "common-prefix")
+                     "    out[pat] = [sorted(n for n in dir(C) if n.endswith('_path')), {n: call(n, built) for n in dir(C) if n.startswith('parse_')}]\n"
+                     "out['@common'] = call('parse_common_project_path', 'projects/p1')\n"
+                     "print(json.dumps(out))\n") % ([(pat, {v: "x" + v for v in re.findall(r"{(\w+)}", pat)}) for _, _, pat in specs],)
             p_ = subprocess.run([_sys.executable, "-c", probe], cwd=root, capture_output=True, text=True, env={"PYTHONPATH": root, "PATH": "/usr/bin:/bin"}, timeout=120)
         finally:
             genrun.cleanup(root)
@@ -383,13 +411,32 @@ def check_name_shapes(ctx, which=("same-short-name", "keyword-variable", "common
             ctx.fail(f"name-shape:{shape}:import", f"emitted client failed: {p_.stderr[-300:]}", payload)
             continue
         out = json.loads(p_.stdout.strip().splitlines()[-1])
+        common_names = sorted(fn for rname in COMMON for fn in (f"common_{rname}_path", f"parse_common_{rname}_path"))
+        vals_of = {pat: {v: "x" + v for v in re.findall(r"{(\w+)}", pat)} for _, _, pat in specs}
         for mname, rtype, pat in specs:
             helpers, parses = out[pat]
-            vals = {v: "x" + v for v in re.findall(r"{(\w+)}", pat)}
-            if vals not in parses:       # no helper of the client parses a path built from THIS pattern
-                key = {"same-short-name": "helper-name-collision:same-short-name",
-                       "common-prefix": "helper-name-collision:common-prefix"}.get(shape, f"name-shape:{shape}:roundtrip")
-                ctx.fail(key, f"resource {rtype} ({pat}): no parse_*_path of the client recovers {vals} (helpers: {helpers})", payload)
+            vals = vals_of[pat]
+            own = sorted(n for n in helpers if n not in common_names)
+            if {"value": vals} in parses.values():       # some helper of the client parses a path built from THIS pattern
+                continue
+            # the listed keys go only to the recorded failures, identified by the input (these fixed APIs) AND by what is observed
+            key = f"name-shape:{shape}:roundtrip"
+            if shape == "same-short-name":
+                # recorded: ONE pair `thing_path`/`parse_thing_path`; it belongs to foo.example.com/Thing (emitted last: the templates sort by
+                # short name, then full type); the pattern of bar.example.com/Thing parses to {} with it
+                other = next(p2 for _, t2, p2 in specs if t2 != rtype)
+                if (own == ["parse_thing_path", "thing_path"] and rtype == "bar.example.com/Thing"
+                        and parses.get("parse_thing_path") == {"value": {}}
+                        and out[other][1].get("parse_thing_path") == {"value": vals_of[other]}):
+                    key = "helper-name-collision:same-short-name"
+            elif shape == "common-prefix":
+                # recorded: no helper besides the ten common ones; `parse_common_project_path` is the COMMON resource's (parses
+                # `projects/p1`, gives {} for this resource's own path)
+                if (own == [] and sorted(helpers) == common_names and parses.get("parse_common_project_path") == {"value": {}}
+                        and out["@common"] == {"value": {"project": "p1"}}):
+                    key = "helper-name-collision:common-prefix"
+            ctx.fail(key, f"resource {rtype} ({pat}): no parse_*_path of the client recovers {vals} (own helpers: {own}; parse results: "
+                          f"{ {n: r_ for n, r_ in parses.items() if n not in common_names or shape == 'common-prefix'} })", payload)
 
 
 # ------------------------------------------------------------------------------------------------
@@ -711,17 +758,18 @@ def sweep(ctx, r, npat, nval):
     model = ctx.driver.ask(ops)
     for (segs, vals, args, fmt, rx), mo in zip(metas, model):
         ctx.case(distinct_key=[render(segs), vals], nontrivial=bool(args))
-        key = classify(segs, vals)
         payload = {"segs": segs, "values": vals, "pattern": render(segs), "via": "function-level"}
         try:
             path = fmt.format(**dict(zip(args, vals)))
             m = re.match(rx, path)
             parsed = m.groupdict() if m else {}
         except Exception as e:
-            ctx.fail(key or "raised", f"{type(e).__name__}: {e}", payload)
+            ctx.fail("raised", f"{type(e).__name__}: {e}", payload)
             continue
         if render(segs) != "*" and parsed != dict(zip(args, vals)):
-            ctx.fail(key or "roundtrip", f"parse(build({vals})) = {parsed} for {render(segs)!r}", {**payload, "path": path})
+            expect_path = "".join(x[1] if x[0] == "lit" else vals[args.index(x[1])] for x in segs)
+            ctx.fail(value_finding_key(segs, vals, path == expect_path, path, parsed, dict(zip(args, vals))) or "roundtrip",
+                     f"parse(build({vals})) = {parsed} for {render(segs)!r}", {**payload, "path": path})
         if mo.get("regex") is None and render(segs) != "*":
             ctx.unsupported += 1
             continue
